@@ -229,7 +229,8 @@ func optProp(t schema.Type, def *string) *schema.PropertySchema {
 }
 
 // mapScope builds a fresh scope whose root object is NOT struct-mapped: its unserialized form is a
-// map[string]any.  "count" has a declared default; count/size/ratio/verbose accept lenient forms.
+// map[string]any.  "count" has a declared default; count/size/ratio/verbose accept lenient forms;
+// timeout (int) and delay (float) are quantities with units.
 func mapScope(id, field string) *schema.ScopeSchema {
 	return schema.NewScopeSchema(schema.NewObjectSchema(id, map[string]*schema.PropertySchema{
 		field:     strProp(2, true),
@@ -238,6 +239,10 @@ func mapScope(id, field string) *schema.ScopeSchema {
 		"size":    optProp(schema.NewIntSchema(nil, nil, nil), nil),
 		"ratio":   optProp(schema.NewFloatSchema(nil, nil, nil), nil),
 		"verbose": optProp(schema.NewBoolSchema(), nil),
+		// quantities with units: the units parser reports numbers it cannot read with its own error types
+		// (BadArgumentError among them), which end up in the cause chain of the schema's rejection
+		"timeout": optProp(schema.NewIntSchema(schema.IntPointer(0), nil, schema.UnitDurationNanoseconds), nil),
+		"delay":   optProp(schema.NewFloatSchema(nil, nil, schema.UnitDurationSeconds), nil),
 	}))
 }
 func mapInScope() *schema.ScopeSchema  { return mapScope("input", "name") }
@@ -256,9 +261,15 @@ type summaryT struct {
 	Title string `json:"title"`
 }
 
+// field names the one required property; "" = every property is optional (an empty map conforms, nil
+// does not)
 func mapOutObject(id, field string) *schema.ObjectSchema {
+	required := field != ""
+	if !required {
+		field = "message"
+	}
 	return schema.NewObjectSchema(id, map[string]*schema.PropertySchema{
-		field:    strProp(1, true),
+		field:    strProp(1, required),
 		"count":  optProp(schema.NewIntSchema(schema.IntPointer(0), nil, nil), nil),
 		"labels": optProp(schema.NewListSchema(schema.NewStringSchema(nil, nil, nil), nil, nil), nil),
 		"filter": optProp(schema.NewPatternSchema(), nil),
@@ -273,6 +284,7 @@ func mapOutputs() map[string]*schema.StepOutputSchema {
 	return map[string]*schema.StepOutputSchema{
 		"success": schema.NewStepOutputSchema(schema.NewScopeSchema(mapOutObject("output", "message")), nil, false),
 		"error":   schema.NewStepOutputSchema(schema.NewScopeSchema(mapOutObject("erroroutput", "error")), nil, true),
+		"info":    schema.NewStepOutputSchema(schema.NewScopeSchema(mapOutObject("infooutput", "")), nil, false),
 	}
 }
 
@@ -322,7 +334,19 @@ var outForms = map[string][]outForm{
 		{"not-a-list", func(f, m string) any { return msa{f: m, "labels": "a,b"} }, nil},
 		{"pattern-as-text", func(f, m string) any { return msa{f: m, "filter": "^a+$"} }, nil},
 		{"sub-object-incomplete", func(f, m string) any { return msa{f: m, "summary": msa{"lines": int64(1)}} }, nil},
+		// nil data under the declared ID whose object has optional properties only (outFormID): an empty
+		// map would conform, nil - of any kind that is not a map - does not
+		{"nil-for-all-optional-output", func(f, m string) any { return nil }, nil},
+		{"nil-struct-pointer-for-all-optional-output", func(f, m string) any { return (*summaryT)(nil) }, nil},
+		{"nil-map-pointer-for-all-optional-output", func(f, m string) any { return (*msa)(nil) }, nil},
 	},
+}
+
+// outFormID: the declared output ID a form is returned under, where it is not the behaviour's own
+var outFormID = map[string]string{
+	"nil-for-all-optional-output":                "info",
+	"nil-struct-pointer-for-all-optional-output": "info",
+	"nil-map-pointer-for-all-optional-output":    "info",
 }
 
 func outFormsOf(beh string) []outForm {
@@ -343,6 +367,9 @@ func handlerOutputMap(beh, name string, variant int) (id string, data any, form 
 	fs := outFormsOf(beh)
 	f := fs[variant%len(fs)]
 	form = "mapout/step/" + beh + "/" + f.name
+	if id, ok := outFormID[f.name]; ok {
+		return id, f.val("message", "hi "+name), form
+	}
 	switch beh {
 	case "ok2":
 		return "error", f.val("error", "no "+name), form
@@ -466,6 +493,10 @@ var mapForms = map[string][]mapForm{
 			func(f, n string) msa {
 				return msa{f: n, "count": int64(10), "size": int64(8), "ratio": float64(2), "verbose": true}
 			}},
+		{"int-quantity-with-units", func(f, n string) any { return msa{f: n, "timeout": "1m 30s"} },
+			func(f, n string) msa { return msa{f: n, "count": int64(3), "timeout": int64(90000000000)} }},
+		{"float-quantity-with-units", func(f, n string) any { return msa{f: n, "count": int64(2), "delay": "1m 1.5s"} },
+			func(f, n string) msa { return msa{f: n, "count": int64(2), "delay": 61.5} }},
 	},
 	// (c) rejected by the schema
 	"inv": {
@@ -485,6 +516,15 @@ var mapForms = map[string][]mapForm{
 		{"string", func(f, n string) any { return "alpha" }, nil},
 		{"non-string-key", func(f, n string) any { return maa{f: "alpha", 7: "x"} }, nil},
 		{"wrong-type-for-string", func(f, n string) any { return msa{f: msa{"a": "b"}} }, nil},
+		// rejected quantities: the schema's own error has the units parser's BadArgumentError as its cause -
+		// the call must all the same fail as a rejected INPUT, not as an unknown step
+		{"units-fraction-for-int", func(f, n string) any { return msa{f: "alpha", "timeout": "1.5ns"} }, nil},
+		{"units-plain-fraction-for-int", func(f, n string) any { return msa{f: "alpha", "timeout": "0.5"} }, nil},
+		{"units-number-overflow", func(f, n string) any { return msa{f: "alpha", "timeout": "99999999999999999999ns"} }, nil},
+		{"units-product-overflow", func(f, n string) any { return msa{f: "alpha", "timeout": "9999999999d"} }, nil},
+		{"units-unknown-unit", func(f, n string) any { return msa{f: "alpha", "timeout": "5 parsecs"} }, nil},
+		{"float-units-number-overflow", func(f, n string) any { return msa{f: "alpha", "delay": "99999999999999999999s"} }, nil},
+		{"float-units-product-overflow", func(f, n string) any { return maa{f: "alpha", "delay": "999999999999999999d"} }, nil},
 	},
 }
 
@@ -621,6 +661,7 @@ type event struct {
 	Ser   string
 	// not part of the trace
 	etype    string
+	chain    string // types along the Unwrap chain of the returned error
 	untyped  bool
 	errText  string
 	panicM   string
@@ -887,7 +928,20 @@ var sdkErrNames = map[string]string{
 	"InvalidInputError": "invalidinput", "InvalidOutputError": "invalidoutput",
 }
 
-// classify maps an error to the specification's outcome class by its type.
+// errChain lists the types along the Unwrap chain of err.
+func errChain(err error) string {
+	var parts []string
+	for e := err; e != nil && len(parts) < 8; e = errors.Unwrap(e) {
+		parts = append(parts, strings.TrimPrefix(fmt.Sprintf("%T", e), "*"))
+	}
+	return strings.Join(parts, " <- ")
+}
+
+// classify maps an error to the specification's outcome class by its type: the type of the returned error
+// itself or, failing that, what errors.As finds - InvalidInputError and InvalidOutputError before
+// BadArgumentError, as a caller telling "rejected input" from "unknown step" would look.  An error that is
+// none of the SDK's types but has a BadArgumentError somewhere among its causes therefore classifies as the
+// unknown-step type: exactly what the statement forbids for a rejected input.
 func classify(err error) (class, etype string, untyped bool) {
 	if err == nil {
 		return "ok", "", false
@@ -959,6 +1013,7 @@ func (s *session) runCall(p *proc) {
 	} else {
 		ev.Class, ev.etype, ev.untyped = classify(err)
 		if err != nil {
+			ev.chain = errChain(err)
 			ev.errText = err.Error()
 		} else if p.call.Kind == "step" {
 			ev.Out = outID
@@ -1152,6 +1207,9 @@ func judge(s *session, r *resT) int {
 		}
 		// outcome
 		od := map[string]any{"returned": ret.Class, "type": ret.etype, "err": ret.errText, "out": ret.Out, "ser": ret.Ser}
+		if ret.chain != "" {
+			od["error_chain"] = ret.chain
+		}
 		want := specClass(c, sit)
 		switch sit {
 		case "ok":
@@ -1171,6 +1229,9 @@ func judge(s *session, r *resT) int {
 			}
 		case "bad_data":
 			if ret.Class == "ok" {
+				if p.oform != "" {
+					od["output_form"], od["returned_data"] = p.oform, ret.dataText
+				}
 				r.miss(false, c, "accepts_bad_output", nil, det(p, od))
 			} else if ret.Class == "invalidinput" || ret.Class == "badarg" || ret.Class == "nosuchstep" {
 				r.miss(true, c, "error_type", nil, det(p, od))
@@ -1837,6 +1898,9 @@ func bindCheckMap() {
 				bindErr = where + ": the in-memory form equals the serialized form"
 			}
 		}
+	}
+	if err := mapOutputs()["info"].Validate(msa{}); err != nil {
+		bindErr = "the all-optional map-based output does not accept the empty map: " + err.Error()
 	}
 	if reflect.TypeOf(msa{}) != mapOutputs()["success"].Schema().ReflectedType() {
 		bindErr = "the map-based output scope does not reflect to map[string]any"
